@@ -177,6 +177,7 @@ func (m *Machine) ndStub(name string, args []Value) Value {
 		}
 		return Tuple{Slice{priv, 0, 64, 64}, Slice{pub, 0, 32, 32}}
 	case "NowUnix":
+		m.nowObserved = true
 		return m.nowBase()
 	case "AssumeHashInjective":
 		m.hashInjective = true
